@@ -34,8 +34,10 @@ type Scenario struct {
 	Mode   string `json:"mode"`
 	Cfg    string `json:"cfg"`
 	Helper string `json:"helper,omitempty"`
-	Items  []Item `json:"items"`
-	Cut    *Cut   `json:"cut,omitempty"`
+	// Setup is the number of leading items that are the setup of a table state
+	Setup int    `json:"setup"`
+	Items []Item `json:"items"`
+	Cut   *Cut   `json:"cut,omitempty"`
 	// StallMS, when > 0, overrides the worker's watchdog for this scenario (set by the supervisor)
 	StallMS int `json:"stall_ms,omitempty"`
 }
@@ -135,7 +137,7 @@ func (r *runner) starveSeq() {
 			r.end()
 			return
 		}
-		n, d := r.e.reqCount(), r.appDone()
+		n := r.e.reqCount()
 		c := r.e.start(it.Lab, func() error { return act.f(r.ctx, r.e) })
 		r.mu.Lock()
 		r.calls = append(r.calls, c)
@@ -144,33 +146,36 @@ func (r *runner) starveSeq() {
 		// no means to observe it); the trace specification compares it with the state the run
 		// protocol derives, so that a scenario which did not reach the state the generator
 		// meant is noticed
+		// "est": the action did what establishes the state it is meant to establish (its request
+		// went on the wire / it returned without an error); required of the actions of a setup
 		loc := "?"
 		if act.sends {
-			r.log(vt.Ev{"ev": "app", "i": i + 1, "act": it.Lab, "loc": loc})
 			// the next item is sent after the application's request is on the wire
-			if w := r.e.waitReq(n, d, reqWait); w == "timeout" {
-				r.detail["note"] = "app action " + it.Lab + " sent no request"
+			// (or the call has returned without sending one)
+			w := r.e.waitCall(n, c, reqWait)
+			if w != "req" {
+				r.detail["note"] = "app action " + it.Lab + " sent no request (" + w + ")"
 			}
+			r.log(vt.Ev{"ev": "app", "i": i + 1, "act": it.Lab, "loc": loc, "est": w == "req"})
 			continue
 		}
 		// an action that sends nothing (it only changes the local state of the extension) has
 		// returned before the peer's next stanza is fed: the stanza meets that state
+		est := false
 		select {
 		case <-c.done:
+			est = c.out == "value"
 			if act.loc != nil {
-				loc = act.loc(c.out == "value")
+				loc = act.loc(est)
+			}
+			if !est {
+				r.detail["note"] = "app action " + it.Lab + " failed: " + c.err
 			}
 		case <-time.After(reqWait):
 			r.detail["note"] = "app action " + it.Lab + " did not return"
 		}
-		r.log(vt.Ev{"ev": "app", "i": i + 1, "act": it.Lab, "loc": loc})
+		r.log(vt.Ev{"ev": "app", "i": i + 1, "act": it.Lab, "loc": loc, "est": est})
 	}
-}
-
-func (r *runner) appDone() int {
-	r.e.mu.Lock()
-	defer r.e.mu.Unlock()
-	return r.e.appDone
 }
 
 // starveReply: the scripted peer of a reply scenario answers the helper's k-th request
@@ -188,7 +193,7 @@ func (r *runner) starveReply() {
 			r.end()
 			return
 		}
-		r.log(vt.Ev{"ev": "app", "i": 0, "act": "helper", "loc": "?"})
+		r.log(vt.Ev{"ev": "app", "i": 0, "act": "helper", "loc": "?", "est": true})
 		c := r.e.start(r.sc.Helper, func() error { return h(r.ctx, r.e) })
 		r.mu.Lock()
 		r.calls = append(r.calls, c)
